@@ -1659,8 +1659,10 @@ class PCE500Emulator:
             self.keyboard.load_state(keyboard_state)
 
         reg_values = _unpack_register_bytes(registers_blob)
+        # Python writes bare indices ("6"), the Rust core writes register names ("TEMP6").
         temps = {
-            int(key): int(value) for key, value in (metadata.get("temps") or {}).items()
+            int(str(key).removeprefix("TEMP")): int(value)
+            for key, value in (metadata.get("temps") or {}).items()
         }
         snapshot = CPURegistersSnapshot(
             pc=reg_values["pc"],
